@@ -9,7 +9,7 @@
      init    [sty, color, bg, ta]                        initial values (tts:initial)
      regions sequence of [id, b, e, wm, da, org, pos, ext, sty, steps, color, bg, ta]
      nodes   sequence in document order of [kind, par, reg, b, e, sty, steps, tid, color, bg, ta]
-             kind in body|div|p|span ; par = index of the parent (0 for the body) ; reg = region id or ""
+             kind in body|div|p|span|br ; par = index of the parent (0 for the body) ; reg = region id or ""
              tid = text id (> 0 for a span that holds a text node, else 0)
    b, e     begin / end in ticks relative to the parent's begin, -1 = unspecified
    wm da    writing mode / display alignment name or "none" (unspecified)
